@@ -1026,14 +1026,15 @@ Proof.
   { intros x Hx. by apply elem_of_nil in Hx. }
   rewrite Hf. cbn [mbind res_mbind rbind]. simpl in Kp. fold (drivers m) in Kp.
   assert (HQ0 : Qinv k NN [] [] (r_g st0)).
-  { assert (E1 : pinsL [] = ∅) by done. assert (E2 : netsL [] = ∅) by done. split; [constructor| | | | |]; rewrite ?E1, ?E2.
+  { assert (E1 : pinsL [] = ∅) by done. assert (E2 : netsL [] = ∅) by done. split; [constructor| | | | | |]; rewrite ?E1, ?E2.
     - intros x Hx. by apply elem_of_empty in Hx.
     - intros x Hx. apply elem_of_union in Hx as [Hx|Hx]; by apply elem_of_empty in Hx.
     - intros x Hx. by apply elem_of_empty in Hx.
     - intros x Hx. by apply elem_of_empty in Hx.
-    - intros x Hx. by apply elem_of_empty in Hx. }
+    - intros x Hx. by apply elem_of_empty in Hx.
+    - intros y j _ x p Hx. by apply elem_of_nil in Hx. }
   destruct (items_pins k NN (list_to_set (xdrivers (k_bbs k) m).*1) Htr HNN (m_items m) st0 st [] [] Hf Hi0 HQ0 Hok Hpk Hnd ltac:(done)) as [HQ _].
-  simpl in HQ. destruct HQ as [_ _ Qd _ _ _].
+  simpl in HQ. destruct HQ as [_ _ Qd _ _ _ _].
   pose proof (items_sets _ _ _ _ Hf) as (E1 & E2 & E3). simpl in E1, E2, E3.
   change (m_items m ≫= item_ins) with (decl_inputs m) in E2. change (m_items m ≫= item_outs) with (decl_outputs m) in E3.
   apply bool_decide_eq_true in Hpm.
